@@ -332,7 +332,7 @@ func catb(parts ...[]byte) []byte {
 }
 
 // flow-control alphabet
-var flowSyms = [][]byte{{0x00}, {0x51}, {0x52}, {0x63}, {0x64}, {0x67}, {0x68}, {0x6a}, {0x61}, {0x65}, {0x66}, {0x75}, {0x76}, {0x8d}, {0xba}, {0x69}, {0x6b}, {0x6c}, {0x6b}, {0x6c}}
+var flowSyms = [][]byte{{0x00}, {0x51}, {0x52}, {0x63}, {0x64}, {0x67}, {0x68}, {0x6a}, {0x61}, {0x65}, {0x66}, {0x75}, {0x76}, {0x8d}, {0xba}, {0x69}, {0x6b}, {0x6c}, {0x6b}, {0x6c}, {0x01, 0x05}, {0x4c, 0x01, 0x07}, {0x01, 0x00}}
 
 // Flow: programs over the flow-control alphabet only (IF/NOTIF/ELSE/ENDIF/RETURN/VERIF/VERNOTIF,
 // small pushes, a few harmless and a few illegal opcodes), split between unlocking and locking script
@@ -376,6 +376,9 @@ func Flow(r *common.Rand) *Program {
 	}
 	if r.Chance(65) {
 		p.Flags |= FGenesis
+	}
+	if r.Chance(30) { // non-minimal pushes in the alphabet: only executed ones are subject to the rule
+		p.Flags |= FMinimalData
 	}
 	if r.Chance(15) {
 		p.Flags |= FMinimalIf
@@ -463,6 +466,17 @@ func ScriptBoundary(emit func(*Program)) {
 		for _, fl := range []uint32{FGenesis, 0, FGenesis | FMinimalData} {
 			emit((&Program{Unlock: []byte{0x51}, Lock: append([]byte{}, lock...), Flags: fl, Kind: "script-boundary"}).Fix())
 			emit((&Program{Unlock: append([]byte{}, lock...), Lock: []byte{0x51}, Flags: fl, Kind: "script-boundary"}).Fix())
+		}
+	}
+	// MINIMALDATA applies to executed pushes only: a non-minimal push in a branch whose own condition is true
+	// but an outer one false, after an executed OP_RETURN inside IF..ENDIF, in a plainly skipped branch
+	for _, lock := range [][]byte{
+		{0x00, 0x63, 0x00, 0x63, 0x67, 0x01, 0x05, 0x68, 0x68, 0x51}, {0x51, 0x63, 0x6a, 0x01, 0x05, 0x68}, {0x00, 0x63, 0x01, 0x05, 0x68, 0x51},
+		{0x00, 0x63, 0x51, 0x63, 0x4c, 0x01, 0x07, 0x68, 0x68, 0x51}, {0x51, 0x63, 0x01, 0x05, 0x68}, {0x00, 0x64, 0x67, 0x01, 0x05, 0x75, 0x68, 0x51},
+		{0x51, 0x63, 0x6a, 0x67, 0x01, 0x05, 0x68}, {0x00, 0x63, 0x63, 0x01, 0x05, 0x67, 0x01, 0x06, 0x68, 0x68, 0x51},
+	} {
+		for _, fl := range []uint32{FGenesis | FMinimalData, FMinimalData, FGenesis} {
+			emit((&Program{Unlock: []byte{0x51}, Lock: append([]byte{}, lock...), Flags: fl, Kind: "script-boundary"}).Fix())
 		}
 	}
 	// a P2SH-shaped output after Genesis is a plain hash comparison: no push-only rule, no redeem script
